@@ -196,6 +196,9 @@ void guarded(guard_fn fn, void *arg) {
         FILE *out = fdopen(pfd[1], "w");
         fn(arg, out);
         fflush(out);
+#ifdef VERIF_COV
+        { extern void __gcov_dump(void); __gcov_dump(); }
+#endif
         _exit(0);
     }
     close(pfd[1]);
